@@ -32,8 +32,8 @@ def main(tier, only=None):
     ck = Check('C01', tier, 'fault_enumeration')
     E2FSCK = tool('e2fsck')
     fsweep.init_scratch()
-    bases = only or (fsweep.QUICK_BASES + ['bigquota', 'lpffull', 'hurd'] if tier == 'quick' else fsweep.SWEEP_BASES)      # bigquota: cluster-granular quota accounting of the repairs
-    ck.set_deadline(240 if tier == 'quick' else 2700)
+    bases = only or (['hurd'] + fsweep.QUICK_BASES + ['bigquota', 'lpffull'] if tier == 'quick' else fsweep.SWEEP_BASES)      # bigquota: cluster-granular quota accounting of the repairs
+    ck.set_deadline(330 if tier == 'quick' else 2700)
     allcodes = set(); total = 0; nconv = 0; declined = 0; distinct_sig = set()
     per = {}
     for name in bases:
